@@ -96,6 +96,9 @@ func (v *formatter_) GetMaximum() int {
 // Public
 
 func (v *formatter_) FormatValue(value any) (source string) {
+	// A previous call may have been abandoned by a panic.
+	v.result_.Reset()
+	v.depth_ = 0
 	v.formatValue(value)
 	v.appendNewline()
 	source = v.getResult()
